@@ -34,6 +34,8 @@ Definition doc_type (o : opt) : otype :=
 Definition all_opts : list opt := [OErrorLogging; OFilterChain; OMessageFormat; OOutput; OFacility; OIdent; OLevel; ODsLen; OLogLen].
 Definition required_opts : list opt := [OErrorLogging; OMessageFormat; OOutput; OFacility; OIdent; OLevel; ODsLen; OLogLen].
 
+(** isspace() of the C locale: SP \t \n \v \f \r -- the set after which the ini parser starts an inline comment *)
+Definition SPACES : list byte := [x20; x09; x0a; x0b; x0c; x0d].
 Definition LOG_ : list byte := bytes "LOG_".
 Definition SNOOPY : list byte := bytes "snoopy".
 
@@ -89,7 +91,8 @@ Definition config_consts_ok (c : config_consts) : bool :=
   && list_eqb (conf_header c) (bytes "; Options from config file (or defaults): ")
   && list_eqb (conf_section c) ([LBR] ++ section_name c ++ [RBR])
   && list_eqb (conf_assign c) (bytes " = ") && conf_quote c && (len (conf_section c) + 1 <=? ini_max_line c - 1)
-  && (negb (conf_cont c) || list_eqb (conf_cont_sep c) ([SP; EQB; NL; SP; SP; SP; SP])).
+  && (negb (conf_cont c) || list_eqb (conf_cont_sep c) ([SP; EQB; NL; SP; SP; SP; SP]))
+  && (negb (conf_cont c) || (same_set (conf_cont_ws c) SPACES && list_eqb (conf_cont_marks c) (ini_inline_comment c))).
 
 (** exactly one layer removes the optional LOG_ prefix (otherwise LOG_LOG_NAME is read as NAME) *)
 Definition single_strip (c : config_consts) : bool := xorb (cfg_strips c) (util_strips c).
